@@ -27,6 +27,11 @@ def dterm(ip, st, v):
             m = "(store %s %s (some %s))" % (m, ip.reg.key(k).s, dterm(ip, st, x).s)
         ip.reg.need_val()
         return T("(D %s)" % m, "Val")
+    if isinstance(v, Ref) and ip.c is not None and ip.c.ghost.get("ctx_lists"):
+        from . import lib_acc2         # a python list of context values as a context value (pyvc/lib_acc2.py)
+        lv = lib_acc2.list_value(ip, st, v)
+        if lv is not None:
+            return lv
     if isinstance(v, Ref) and ip.c is not None and ip.c.ghost.get("dict_objects"):
         from . import dictobj          # a python list of strings as a context value (pyvc/dictobj.py)
         lv = dictobj.list_value(ip, st, v)
@@ -54,6 +59,10 @@ def scalar(ip, st, v):
             ax = T("(forall ((x Real)) (! (not (isD (num_as_val x))) :pattern ((num_as_val x))))", "Bool")
             if not any(a.s == ax.s for a in reg.axioms):
                 reg.axioms.append(ax)
+            # python: the truth value of a number is `x != 0`
+            ax2 = T("(forall ((x Real)) (! (= (truthy_s (sid (num_as_val x))) (not (= x 0.0))) :pattern ((num_as_val x))))", "Bool")
+            if not any(a.s == ax2.s for a in reg.axioms):
+                reg.axioms.append(ax2)
             return T("(%s %s)" % (f, to_real(t).s), "Val")
         key, truthy = "num:%d" % k, k != 0
     elif isinstance(v, Opaque) and v.sort == "Key":
@@ -498,6 +507,9 @@ def key_method(ip, st, recv, name, pos, kws):
                     st.assume(EQ(reg.l_get(t, I(j)), reg.key(cpt)))
                 break
         return [(st, ip.new_cell(st, LstCellOf(t)))]
+    if name == "format" and ip.c is not None and ip.c.ghost.get("str_format_abstract"):
+        from .lib_fmt import abstract_format         # opt-in: str.format as an abstract library function
+        return abstract_format(ip, st, recv, pos, kws)
     raise U("str method %s on a symbolic key" % name)
 
 
@@ -512,12 +524,14 @@ SEEN = "(Array Key Bool)"
 
 def for_dict(ip, s, st, itv, k, spec, mode=None):
     """for key in d / for key, value in d.items(): an arbitrary not-yet-visited key per iteration; ghost `$seen`"""
-    from .stmts import (check_invariants, assume_invariants, havoc_loop, exec_block, assign_to)
+    from .stmts import (check_invariants, assume_invariants, havoc_loop, exec_block, assign_to, ghost_init)
     reg = ip.reg
     reg.need_val()
     dt0 = dterm(ip, st, itv)
     need_dict(ip, st, dt0, "iteration")
     st.env["$seen"] = Opaque(T("((as const %s) false)" % SEEN, SEEN))
+    if spec is not None:
+        ghost_init(ip, spec, st)          # LoopSpec.init_ghost: evaluated once, when the loop statement is reached
     check_invariants(ip, k, spec, st, "init")
     h = st.fork(None, "L%s:" % k)
     havoc_loop(ip, s, h, spec, s.body)
